@@ -182,7 +182,11 @@ inline bool nikolaev_scq::dequeue(std::uint64_t& value, std::size_t capacity, st
   const std::size_t is_safe_and_value_mask = 2 * n - 1;
 
   for (;;) {
-    const auto head = _head.fetch_add(index_inc, std::memory_order_relaxed);
+    // This has to be an acquire-release operation: a dequeue that observes (via the value of head) that
+    // other dequeues have already consumed entries must also observe everything that happened-before
+    // those dequeues. Otherwise it can find its entry empty, miss a node that has been appended by
+    // a thread whose later dequeue it has observed, and wrongly report the queue as empty.
+    const auto head = _head.fetch_add(index_inc, std::memory_order_acq_rel);
     assert((head & finalized) == 0);
     const auto head_cycle = head | is_safe_and_value_mask;
     const auto hidx = remap_index(head, remap_shift, n);
